@@ -6,6 +6,7 @@
 // (function, line, parena, pstack, bytes, alignment, result).  Nothing else is changed; the static
 // consumers (pushPairArena, arenaAllocEfc, arenaAllocIsland) become callable for the unit ops.
 //
+// usage: c20_exhaust [--model FILE]
 // stdin commands (one output line per command, except `model` which consumes lines up to `end`):
 //   model NAME / <description lines of harness/mjbuild.h> / end      -> "model NAME ok nq nv ngeom narena szcon szpair"
 //   init qpos|qvel v...        initial state used by sweeps (default: qpos0, zero velocity)
@@ -18,7 +19,7 @@
 //   addcon NARENA PSTACK NCON                              real mj_addContact
 //   pushpair VARIANT NARENA PSTACK PARENA                  real pushPairArena in a forked child
 //   alloc NARENA PARENA PSTACK BYTES AL                    real mj_arenaAllocByte
-//   sites                                                   -> sizeof/alignof facts used by the model
+//   facts | groups                                          -> sizeof/alignof and X-macro group sizes used by the model
 #include <errno.h>
 #include <inttypes.h>
 #include <poll.h>
@@ -155,10 +156,6 @@ static const char* check_inv(const mjModel* m, const mjData* d, char* buf, size_
   }
 #undef MJ_M
 #undef MJ_D
-  for (int i = 0; i < d->ncon; i++) {
-    int ea = d->contact[i].efc_address;
-    if (ea >= d->nefc || ea < -1) { snprintf(buf, n, "contact %d efc_address %d with nefc %d", i, ea, d->nefc); return buf; }
-  }
   return NULL;
 }
 
@@ -169,18 +166,25 @@ static double* g_qpos = NULL; static int g_nqpos = 0;
 static double* g_qvel = NULL; static int g_nqvel = 0;
 static int g_fence = 1;
 
-static void child_sweep(size_t narena, int nsteps, int trace, int fd) {
+static void ef_reset(void) {
+  for (int i = 0; i < g_nblk; i++) {
+    size_t pg = 4096, total = ((g_blk[i].body + pg - 1) / pg) * pg;
+    munmap(g_blk[i].lo - pg, total + 2 * pg);
+  }
+  g_nblk = 0;
+}
+
+// one size: mj_makeData + nsteps x mj_step with m->narena = narena; the report goes to fd as it is produced
+static void one_size(size_t narena, int nsteps, int trace, int fd) {
   char b[600], ib[200];
-  g_report_fd = fd;
-  dup2(fd, 2);   // sanitizer reports go to the same pipe
   alarm(60);
   mjModel* m = g_m;
   m->narena = narena;
-  if (g_fence) { mju_user_malloc = ef_malloc; mju_user_free = ef_free; }
   jmp_buf jb;
   volatile int step = -1;
   mjData* volatile dv = NULL;
   reset_trace();
+  g_nullprinted = 0;
   g_jmp = &jb;
   if (setjmp(jb)) {
     snprintf(b, sizeof b, "err %d %s;", (int)step, g_errmsg);
@@ -216,16 +220,37 @@ static void child_sweep(size_t narena, int nsteps, int trace, int fd) {
       wr(fd, b);
     }
   }
-  snprintf(b, sizeof b, "fin steps=%d wC=%d wF=%d nalloc=%d nnull=%d ncon=%d nefc=%d nisland=%d maxarena=%zu canary=%s;",
+  // informational (not an invariant): contacts whose efc_address points at or above nefc
+  int stale = 0;
+  if (d && (int)step >= nsteps) for (int i = 0; i < d->ncon; i++) if (d->contact[i].efc_address >= d->nefc) stale++;
+  snprintf(b, sizeof b, "fin steps=%d wC=%d wF=%d nalloc=%d nnull=%d ncon=%d nefc=%d nisland=%d maxarena=%zu stale=%d canary=%s;",
            (int)step, d ? d->warning[mjWARN_CONTACTFULL].number : -1, d ? d->warning[mjWARN_CNSTRFULL].number : -1,
-           g_nalloc, g_nnull, d ? d->ncon : -1, d ? d->nefc : -1, d ? d->nisland : -1, d ? d->maxuse_arena : 0,
+           g_nalloc, g_nnull, d ? d->ncon : -1, d ? d->nefc : -1, d ? d->nisland : -1, d ? d->maxuse_arena : 0, stale,
            (!g_fence || ef_check()) ? "ok" : "BAD");
   wr(fd, b);
+  // the mjData is dropped, not deleted: after a caught mju_error its stack may be in use
+  if (g_fence) ef_reset();
+}
+
+typedef struct { const size_t* sizes; int n, nsteps, trace; } SweepArg;
+// a batch of sizes in one child: "b <size>;<report>\n" per size; the parent restarts after a size that kills the child
+static void sweep_thunk(void* a, int fd) {
+  SweepArg* s = a;
+  char b[64];
+  g_report_fd = fd;
+  dup2(fd, 2);   // sanitizer reports go to the same pipe
+  if (g_fence) { mju_user_malloc = ef_malloc; mju_user_free = ef_free; }
+  for (int i = 0; i < s->n; i++) {
+    snprintf(b, sizeof b, "b %zu;", s->sizes[i]);
+    wr(fd, b);
+    one_size(s->sizes[i], s->nsteps, s->trace, fd);
+    wr(fd, "\001");
+  }
   _exit(0);
 }
 
 // run f in a forked child, collect its report; returns malloc'd string, sets *status text
-static char* in_child(void (*f)(void*, int), void* arg, char* status, size_t nstatus) {
+static char* in_child2(void (*f)(void*, int), void* arg, char* status, size_t nstatus, int keep_nl) {
   int pf[2];
   if (pipe(pf)) { snprintf(status, nstatus, "pipe-failed"); return strdup(""); }
   fflush(stdout);
@@ -244,12 +269,10 @@ static char* in_child(void (*f)(void*, int), void* arg, char* status, size_t nst
   int st = 0; waitpid(pid, &st, 0);
   if (WIFSIGNALED(st)) snprintf(status, nstatus, "sig%d", WTERMSIG(st));
   else snprintf(status, nstatus, "exit%d", WEXITSTATUS(st));
-  for (size_t i = 0; i < len; i++) if (buf[i] == '\n' || buf[i] == '\r') buf[i] = '~';
+  for (size_t i = 0; i < len; i++) if ((buf[i] == '\n' && !keep_nl) || buf[i] == '\r') buf[i] = '~';
   return buf;
 }
-
-typedef struct { size_t narena; int nsteps, trace; } SweepArg;
-static void sweep_thunk(void* a, int fd) { SweepArg* s = a; child_sweep(s->narena, s->nsteps, s->trace, fd); }
+static char* in_child(void (*f)(void*, int), void* arg, char* status, size_t nstatus) { return in_child2(f, arg, status, nstatus, 0); }
 
 // ------------------------------------------------------------------ unit ops on the real consumers
 typedef struct { size_t b, a; } Req;
@@ -329,6 +352,14 @@ int main(int argc, char** argv) {
   mju_user_error = on_error;
   mju_user_warning = on_warning;
   if (getenv("C20_NOFENCE")) g_fence = 0;
+  if (argc == 3 && !strcmp(argv[1], "--model")) {   // unit-op mode: the model comes from a file, stdin carries only ops
+    FILE* f = fopen(argv[2], "r");
+    char err[512];
+    if (!f) { fprintf(stderr, "cannot open %s\n", argv[2]); return 2; }
+    g_m = mjb_compile(f, &g_spec, err, sizeof err);
+    fclose(f);
+    if (!g_m) { fprintf(stderr, "model: %s\n", err); return 2; }
+  }
   while (fgets(line, sizeof line, stdin)) {
     char* nl = strchr(line, '\n'); if (nl) *nl = 0;
     char* bar = strchr(line, '|');
@@ -352,8 +383,22 @@ int main(int argc, char** argv) {
              (int)g_m->ngeom, (size_t)g_m->narena, sizeof(mjContact), sizeof(mjcPair), _Alignof(mjcPair));
       continue;
     }
-    if (!strcmp(op, "sites") && n == 1) {
+    if (!strcmp(op, "facts") && n == 1) {
       printf("sites szcon=%zu alcon=%zu szpair=%zu alpair=%zu\n", sizeof(mjContact), _Alignof(mjContact), sizeof(mjcPair), _Alignof(mjcPair));
+      continue;
+    }
+    if (!strcmp(op, "groups") && n == 1) {
+      int ns = 0, nd = 0, ni = 0;
+#define X(type, name, nr, nc) ns++;
+      MJDATA_ARENA_POINTERS_SOLVER
+#undef X
+#define X(type, name, nr, nc) nd++;
+      MJDATA_ARENA_POINTERS_DUAL
+#undef X
+#define X(type, name, nr, nc) ni++;
+      MJDATA_ARENA_POINTERS_ISLAND
+#undef X
+      printf("groups nsolver=%d ndual=%d nisland=%d\n", ns, nd, ni);
       continue;
     }
     if (!g_m) { puts("bad-op"); continue; }
@@ -366,13 +411,41 @@ int main(int argc, char** argv) {
     }
     if (!strcmp(op, "sweep") && n >= 3) {
       size_t narena0 = g_m->narena;
-      for (int i = 3; i < n; i++) {
-        SweepArg a = {strtoull(tok[i], NULL, 10), atoi(tok[1]), atoi(tok[2])};
+      int ns = n - 3;
+      size_t* sizes = malloc(sizeof(size_t) * (ns ? ns : 1));
+      for (int i = 0; i < ns; i++) sizes[i] = strtoull(tok[i + 3], NULL, 10);
+      int i = 0;
+      while (i < ns) {
+        int batch = ns - i < 48 ? ns - i : 48;
+        SweepArg a = {sizes + i, batch, atoi(tok[1]), atoi(tok[2])};
         char st[32];
-        char* rep = in_child(sweep_thunk, &a, st, sizeof st);
-        printf("r %zu %s | %s\n", a.narena, st, rep);
+        char* rep = in_child2(sweep_thunk, &a, st, sizeof st, 1);
+        // complete lines = sizes the child survived; an unterminated tail = the size that killed it
+        char* p = rep; int done = 0;
+        while (*p && done < batch) {
+          char* e = strchr(p, '\001');
+          size_t sz = 0; char* body = p;
+          if (p[0] == 'b' && p[1] == ' ') { sz = strtoull(p + 2, &body, 10); if (*body == ';') body++; }
+          if (e) {
+            *e = 0;
+            for (char* c = body; *c; c++) if (*c == '\n') *c = '~';
+            printf("r %zu exit0 | %s\n", sz, body);
+            p = e + 1; done++;
+          } else {
+            for (char* c = body; *c; c++) if (*c == '\n') *c = '~';
+            printf("r %zu %s | %s\n", sz, strcmp(st, "exit0") ? st : "exit-early", body);
+            done++;
+            break;
+          }
+        }
+        if (done == 0) {   // the child died before reporting anything for its first size
+          printf("r %zu %s | \n", sizes[i], strcmp(st, "exit0") ? st : "exit-early");
+          done = 1;
+        }
         free(rep);
+        i += done;
       }
+      free(sizes);
       g_m->narena = narena0;
       puts("sweep-end");
       continue;
